@@ -161,6 +161,30 @@ def judge(ctx, cs, text, context, consts, cellinfo=None):
                               {"text": text, "context": {k: repr(v) for k, v in typed.items()}, "consts": consts,
                                "got": repr(rt[1]), "want": want})
                 return
+    # identifiers as headers spell them: underscores inside and in front, digits, upper case, names that begin like a
+    # literal prefix or a suffix letter -- the value does not depend on how a name is spelled
+    if defined and hash(text) % 4 == 2 and (context or consts):
+        import re as _re
+
+        for ren in ({"a": "total_len", "b": "_pad", "u": "x0", "K": "HDR_SIZE"}, {"a": "u1", "b": "l_2", "u": "b0_", "K": "_"},
+                    {"a": "A_", "b": "__b", "u": "ull_", "K": "K_9_z"}):
+            t2 = _re.sub(r"\b(a|b|u|K)\b", lambda m: ren[m.group(1)], text)
+            if t2 == text:
+                break
+            c2 = {ren.get(k, k): v for k, v in context.items()}
+            k2 = {ren.get(k, k): v for k, v in consts.items()}
+            cs.consts.clear()
+            cs.consts.update(k2)
+            _e4, rr = lib_eval(cs, t2, c2)
+            cs.consts.clear()
+            cs.consts.update(consts)
+            ctx.event("renamed_identifier_evaluations")
+            ctx.cell("identifier-spellings")
+            if rr[0] != "ok" or rr[1] != want:
+                ctx.violation("value", "value-depends-on-how-an-identifier-is-spelled",
+                              {"text": t2, "original": text, "context": c2, "consts": k2,
+                               "got": repr(rr[1]) if rr[0] == "ok" else lib.exc_sig(rr[1]), "want": want})
+                return
     # a character -- the value of a char field, or of a constant defined as a character literal -- takes part by its
     # code, whichever of the two tables it comes from
     if defined and hash(text) % 4 == 1:
